@@ -703,6 +703,9 @@ func (c *ChainSt) buildConfirm(w *World, t *Tx) (*Built, error) {
 		sig[64] = 27 + (1 - (sig[64] - 27))
 	case "truncate":
 		sig = sig[:64]
+	case "trailing":
+		// the genuine 65 bytes followed by a few more: not an (r,s,v) signature the external contract could use
+		sig = append(sig, 0xde, 0xad, 0xbe, 0xef)
 	case "garbage":
 		for i := range sig {
 			sig[i] ^= 0x5a
